@@ -6,7 +6,7 @@ import Uquic.Proofs.FieldsWriter
 namespace Uquic.Proofs.Fields
 open Uquic.Model.H3.Fields Uquic.Model.H3.Writer Uquic.Gen.H3Fields
 open Uquic.Spec.H3Fields (isPseudoName lowerTchar fieldValueByte isDigitByte connectionSpecific allowedPseudo
-  fieldSize sectionSize WellFormedG WellFormed)
+  fieldSize sectionSize WellFormed)
 
 theorem lower_token_small : ∀ b, b < 127 → isTokenByte b = true → lowerTchar (if isUpper b then b + 32 else b) = true := by
   decide
@@ -58,34 +58,47 @@ theorem conn_sub_skipped : ∀ n ∈ connectionSpecific, n ∈ skippedNames := b
 theorem cl_in_skipped : nContentLength ∈ skippedNames := by decide
 
 theorem headerFields_mem (hs : List (List Nat × List (List Nat))) :
-    ∀ f ∈ (headerFields hs).1, ∃ kv ∈ hs, f.1 = lowerASCII kv.1 ∧ f.2 ∈ kv.2 ∧ lowerASCII kv.1 ∉ skippedNames := by
+    ∀ f ∈ (headerFields hs).1, ∃ kv ∈ hs, f.1 = lowerASCII kv.1 ∧ f.2 ∈ kv.2 ∧ lowerASCII kv.1 ∉ skippedNames ∧
+      (lowerASCII kv.1 = nTe → f.2 = vTrailers) := by
   induction hs with
   | nil => intro f hf; simp [headerFields] at hf
   | cons kv rest ih =>
     intro f hf
     obtain ⟨k, vv⟩ := kv
     simp only [headerFields] at hf
-    have lift : (∃ kv ∈ rest, f.1 = lowerASCII kv.1 ∧ f.2 ∈ kv.2 ∧ lowerASCII kv.1 ∉ skippedNames) →
-        ∃ kv ∈ (k, vv) :: rest, f.1 = lowerASCII kv.1 ∧ f.2 ∈ kv.2 ∧ lowerASCII kv.1 ∉ skippedNames := by
+    have lift : (∃ kv ∈ rest, f.1 = lowerASCII kv.1 ∧ f.2 ∈ kv.2 ∧ lowerASCII kv.1 ∉ skippedNames ∧
+          (lowerASCII kv.1 = nTe → f.2 = vTrailers)) →
+        ∃ kv ∈ (k, vv) :: rest, f.1 = lowerASCII kv.1 ∧ f.2 ∈ kv.2 ∧ lowerASCII kv.1 ∉ skippedNames ∧
+          (lowerASCII kv.1 = nTe → f.2 = vTrailers) := by
       rintro ⟨kv, hkv, h⟩; exact ⟨kv, List.mem_cons_of_mem _ hkv, h⟩
     split at hf
     · exact lift (ih f hf)
     · rename_i hskip
       have hns : lowerASCII k ∉ skippedNames := by simpa using hskip
       split at hf
-      · split at hf
+      · rename_i hua
+        split at hf
         · exact lift (ih f hf)
         · rename_i v vs
           split at hf
           · exact lift (ih f hf)
           · simp only [List.mem_cons] at hf
             rcases hf with rfl | hf
-            · exact ⟨(k, v :: vs), by simp, rfl, by simp, hns⟩
+            · exact ⟨(k, v :: vs), by simp, rfl, by simp, hns, fun hte => by
+                simp only [] at hte; rw [hte] at hua; exact absurd hua (by decide)⟩
             · exact lift (ih f hf)
-      · simp only [List.mem_append, List.mem_map] at hf
-        rcases hf with ⟨v, hv, rfl⟩ | hf
-        · exact ⟨(k, vv), by simp, rfl, hv, hns⟩
-        · exact lift (ih f hf)
+      · rename_i hnua
+        split at hf
+        · rename_i hte
+          simp only [List.mem_append, List.mem_map, List.mem_filter, decide_eq_true_eq] at hf
+          rcases hf with ⟨v, ⟨hv, hvt⟩, rfl⟩ | hf
+          · exact ⟨(k, vv), by simp, rfl, hv, hns, fun _ => hvt⟩
+          · exact lift (ih f hf)
+        · rename_i hnte
+          simp only [List.mem_append, List.mem_map] at hf
+          rcases hf with ⟨v, hv, rfl⟩ | hf
+          · exact ⟨(k, vv), by simp, rfl, hv, hns, fun h => absurd h hnte⟩
+          · exact lift (ih f hf)
 
 theorem joinWith_bytes (ks : List (List Nat)) (h : ∀ k ∈ ks, ∀ b ∈ k, fieldValueByte b = true) :
     ∀ b ∈ joinWith [44, 32] ks, fieldValueByte b = true := by
@@ -125,8 +138,6 @@ structure ValidRequest (ua : List Nat) (w : WReq) : Prop where
   ua : validFieldValue ua = true
   /-- Content-Length fits int64 (it is one) -/
   cl : w.contentLength < 2 ^ 63
-  /-- NOT enforced by the writer (finding C19-request-te): TE only carries "trailers" -/
-  te : ∀ kv ∈ w.headers, lowerASCII kv.1 = nTe → ∀ v ∈ kv.2, v = vTrailers
 
 theorem regularPart_ok (ua : List Nat) (w : WReq) (hv : ValidRequest ua w)
     (hh : w.headers.any (fun kv => !validFieldName kv.1 || kv.2.any (fun v => !validFieldValue v)) = false) :
@@ -145,7 +156,7 @@ theorem regularPart_ok (ua : List Nat) (w : WReq) (hv : ValidRequest ua w)
       exact token_value k (hv.trailers k (List.mem_filter.mp hk).1)
     · simp at hf
   · -- headers
-    obtain ⟨kv, hkv, h1, h2, h3⟩ := headerFields_mem w.headers f hf
+    obtain ⟨kv, hkv, h1, h2, h3, h4⟩ := headerFields_mem w.headers f hf
     have hkvok := List.any_eq_false.mp hh kv hkv
     simp only [Bool.or_eq_true, Bool.not_eq_true', List.any_eq_true, not_or, not_exists, not_and,
       Bool.not_eq_false] at hkvok
@@ -157,7 +168,7 @@ theorem regularPart_ok (ua : List Nat) (w : WReq) (hv : ValidRequest ua w)
     · rw [h1]; exact htok
     · exact value_bytes_of_valid _ (by simpa using hkvok.2 f.2 h2)
     · rw [h1]; intro hc; exact h3 (conn_sub_skipped _ hc)
-    · intro hte; exact hv.te kv hkv (h1 ▸ hte) f.2 h2
+    · intro hte; exact h4 (h1 ▸ hte)
     · rw [h1]; intro hc; exact h3 (hc ▸ cl_in_skipped)
   · -- content-length
     split at hf
